@@ -368,6 +368,13 @@ func runCheck(repo, verif, prop, tier string, workers int, solver string) int {
 					h.Name, v.What, o.assumeFail, cexPath))
 			}
 		}
+		if exit == 1 {
+			// the verdict is settled by a natively reproduced violation: the
+			// remaining harnesses cannot change it (all signatures of this
+			// harness were still compared with the known-findings list)
+			samples = append(samples, "remaining harnesses skipped after the reproduced violation in "+h.Name)
+			break
+		}
 	}
 	writeEvidence(evPath, prop, tier, seed, spec, evs, totalPaths, totalOblig, samples, inconclusive, knownSeen, time.Since(t0), P, violations)
 	if exit == 1 {
